@@ -312,6 +312,26 @@ PROPS = {
         "assumptions": ["uniqueness / non-malleability of ECVRF outputs, key separation, SHA-512 and Edwards arithmetic are assumed "
                         "(explored by the oracle, not proved)"],
     },
+    "C19": {
+        "thm_module": ["AkdModel.Thm.C19"],
+        "theorems": ["Akd.C19." + t for t in ["label_roundtrip", "element_roundtrip", "sibling_roundtrip", "membership_roundtrip",
+                                              "nonmembership_roundtrip", "lookup_roundtrip", "update_roundtrip", "history_roundtrip",
+                                              "single_roundtrip", "appendonly_roundtrip", "label_too_long_rejected",
+                                              "digest_wrong_size_rejected", "varint64_roundtrip", "varint32_roundtrip",
+                                              "wire_roundtrip", "lookup_bytes_roundtrip", "history_bytes_roundtrip",
+                                              "appendonly_bytes_roundtrip", "lookup_roundtripBytes", "blobname_roundtrip"]],
+        "streams": ["l1.pb"],
+        "rule": "encodings of REAL lookup / history / append-only proofs and of their components (membership, non-membership, "
+                "sibling, element, label, update, single proof) produced over random histories in both configurations are decoded "
+                "(generated parser + TryFrom) and re-encoded on both sides: `pb.dec <type> <bytes>` compares parse error / "
+                "conversion error / canonical re-encoding between rust-protobuf + proto/mod.rs and the Lean wire model; corrupted "
+                "encodings: truncation at random (thorough: every) offset, bit flips, every top-level field deleted / duplicated / "
+                "moved / given a wrong wire type, unknown fields (varint, bytes, groups, unterminated and 150-deep groups), 11-byte "
+                "and non-canonical varints, labels of 33 bytes / 257 bits / > u32, digests of 31 / 33 bytes, directions 0..257, wrong "
+                "child and sibling counts, packed and mixed epochs, random bytes; oracle-only lines verify decodable corrupted proofs "
+                "against the current epoch hash: no panic, and what still verifies gives the honest result; audit blob names",
+        "assumptions": ["rust-protobuf's generated code is modelled (match on full tag, limits, recursion levels), not verified"],
+    },
     "C20": {
         "thm_module": ["AkdModel.Thm.C05"],
         "theorems": ["Akd.C05.membership_sound_leaf"],
